@@ -19,6 +19,7 @@ RULE = ("grammar-generated task programs (profiles %s; trees and DAGs of tasks, 
         "the real scheduler and replayed in the Lean machine with the implementation's flush choices; non-trivial = at "
         "least 2 tasks and 1 scheduler flush; distinct by hash of (configuration, programs)" % (", ".join(p for p, _ in MIX)))
 RULE += cc.ASYNCIO_RULE
+RULE += "; plus family reawait (tasks left unfinished by an exception that ESCAPED the scheduler - KeyboardInterrupt / BaseException-only error / SystemExit of a lazy provider, the MAX_TASK_STACK_SIZE guard - are awaited again by a later computation: completed, every step once), judged by direct expectation (Drv/Families6t.lean)"
 TRUSTED = cc.TRUSTED_CORE + cc.TRUSTED_ASYNCIO
 ASSUMPTIONS = cc.ASSUMPTIONS_CORE
 
@@ -36,6 +37,7 @@ def extra(tier, rng):
     res.append({"cfg": {"kinds": {}}, "family": ["wide", 1100 if tier == "quick" else 2600]})
     res += cc.asyncio_cases(PID, tier, cc.fork(rng, "aio"))
     res += cc.corefam4.aiostart_cases(tier, cc.fork(rng, "aiostart"))
+    res += cc.corefam6t.reawait_cases(tier, cc.fork(rng, "reawait"))
     return res
 
 
